@@ -2259,7 +2259,8 @@ def gen_tls_prog(rng, churn=False):
         order = list(range(1, nt + 1)); rng.shuffle(order)
         main += [(OP['JN'], t, 0, 0) for t in order]
     main += [(OP['KGET'], 0, 0, 0), (OP['KDELETE'], 0, 1, 2000), (OP['KDELETE'], 1, 0, 0), (OP['KDELETE'], 1, 0, 0)]
-    return {'init': [], 'bodies': [main] + bodies}
+    # in some programs destructor 3 itself ends the thread (myth_exit from inside the destructor)
+    return {'init': [(6, 0, 1)] if (not churn and rng.random() < 0.3) else [], 'bodies': [main] + bodies}
 
 
 def gen_timed_prog(rng):
